@@ -83,6 +83,7 @@ def run (st : St) (args : List String) : St × String :=
     let (s', r) := updateProp (cfgOf t) (getSt st t) id.toNat! data.toNat!
     (putSt st t s', match r with | .ok _ => "ok" | .error e => "err:" ++ perrStr e)
   | ["pr.events", t] => (st, eventsStr (cfgOf t) (getSt st t))
+  | ["pr.cross", _, _] => (st, "ok")   -- Props/C14.independent_registers: a property is what was last written to it
   | ["pr.burst", _, _] => (st, "ok")   -- Props/C14Events.one_event_per_committed_write, on every interleaving
   | "pr.lin" :: init :: h =>
     -- the register starts with `level = init`
